@@ -124,15 +124,29 @@ theorem load_rejects_not_obj (typed : Bool) (sa : String → Atom) (ds : Fields 
     (h : ∀ top, doc ≠ .obj top) : loadJ typed sa ds doc = .error .runtime :=
   Ser.load_rejects_not_obj h
 
-/-- … that has no `"meta"` object, … -/
+/-- … that has no `"meta"` entry, … -/
 theorem load_rejects_no_meta (typed : Bool) (sa : String → Atom) (ds : Fields → DRes) (top : Fields)
-    (h : ∀ hdr, lookupF top "meta" ≠ some (.obj hdr)) : loadJ typed sa ds (.obj top) = .error .runtime :=
+    (h : lookupF top "meta" = none) : loadJ typed sa ds (.obj top) = .error .runtime :=
   Ser.load_rejects_no_meta h
 
-/-- … that has no `"nodes"` array, … -/
+/-- … or whose `"meta"` is not a JSON object (refused with RuntimeError, or with the TypeError that the membership test
+/ subscript on that value raises: `null`, numbers, bools; lists and strings that contain `"$generator"`), … -/
+theorem load_rejects_bad_meta (typed : Bool) (sa : String → Atom) (ds : Fields → DRes) (top : Fields) (m : JVal)
+    (hm : lookupF top "meta" = some m) (h : ∀ hdr, m ≠ .obj hdr) :
+    loadJ typed sa ds (.obj top) = .error .runtime ∨ loadJ typed sa ds (.obj top) = .error .type :=
+  Ser.load_rejects_bad_meta hm h
+
+/-- … that has no `"nodes"` entry, … -/
 theorem load_rejects_no_nodes (typed : Bool) (sa : String → Atom) (ds : Fields → DRes) (top : Fields)
-    (h : ∀ nodes, lookupF top "nodes" ≠ some (.arr nodes)) : loadJ typed sa ds (.obj top) = .error .runtime :=
+    (h : lookupF top "nodes" = none) : loadJ typed sa ds (.obj top) = .error .runtime :=
   Ser.load_rejects_no_nodes h
+
+/-- … whose `"nodes"` is `null`, a number or a bool (TypeError after the header was accepted), … -/
+theorem load_rejects_scalar_nodes (typed : Bool) (sa : String → Atom) (ds : Fields → DRes) (top hdr : Fields) (nd : JVal)
+    (hm : lookupF top "meta" = some (.obj hdr)) (hn : lookupF top "nodes" = some nd) (hg : genOk hdr = true)
+    (hs : nd = .null ∨ (∃ b, nd = .bool b) ∨ (∃ i, nd = .num i)) :
+    loadJ typed sa ds (.obj top) = .error .type :=
+  Ser.load_rejects_scalar_nodes hm hn hg hs
 
 /-- … whose meta has no `"$generator"`, … -/
 theorem load_rejects_no_generator (typed : Bool) (sa : String → Atom) (ds : Fields → DRes) (top hdr : Fields)
@@ -146,6 +160,32 @@ theorem load_rejects_bad_generator (typed : Bool) (sa : String → Atom) (ds : F
     (hn : hasNutree (match (generalizing := false) g with | .str s => s | _ => "") = false) :
     loadJ typed sa ds (.obj top) = .error .runtime :=
   Ser.load_rejects_bad_generator hm hg hn
+
+/-- the nutree header: the document is an object whose `"meta"` is an object with a `"$generator"` string that
+contains `nutree/`. -/
+def HasHeader (doc : JVal) : Prop :=
+  ∃ top hdr, doc = .obj top ∧ lookupF top "meta" = some (.obj hdr) ∧ genOk hdr = true
+
+/-- **JSON without the nutree header is rejected** — every document, whatever else it contains. -/
+theorem load_rejects_without_header (typed : Bool) (sa : String → Atom) (ds : Fields → DRes) (doc : JVal)
+    (h : ¬ HasHeader doc) : ∃ e, loadJ typed sa ds doc = .error e := by
+  cases doc with
+  | obj top =>
+    cases hm : lookupF top "meta" with
+    | none => exact ⟨_, Ser.load_rejects_no_meta hm⟩
+    | some m =>
+      by_cases ho : ∃ hdr, m = .obj hdr
+      · obtain ⟨hdr, rfl⟩ := ho
+        cases hg : genOk hdr with
+        | true => exact absurd ⟨top, hdr, rfl, hm, hg⟩ h
+        | false => exact ⟨_, Ser.load_rejects_genOk_false hm hg⟩
+      · rcases Ser.load_rejects_bad_meta (typed := typed) (sa := sa) (ds := ds) hm (fun hdr e => ho ⟨hdr, e⟩) with h1 | h1
+        · exact ⟨_, h1⟩
+        · exact ⟨_, h1⟩
+  | _ => exact ⟨_, rfl⟩
+
+example : ¬ HasHeader (.obj [("meta", .null), ("nodes", .arr [])]) := by
+  rintro ⟨top, hdr, h1, h2, _⟩; cases h1; simp [lookupF] at h2
 
 /-- L7. The header names the generator (constant regenerated from the source), unless `file_meta`
 overwrites it … -/
